@@ -215,6 +215,47 @@ func runC14(ctx *Ctx) *Report {
 		rep.Record(c, caseKey(c), len(c.Doc) > 8, diffs)
 		rep.Count("massive-reader:" + c.Mode)
 	})
+	// a reader that fails once and would deliver more afterwards: the first failure is the result
+	{
+		docs := [][]byte{[]byte("- a\n  - b\n- c\n"), []byte("\n\n- a\n  - b\n"), []byte("# r\n- x\n\t- y\n")}
+		for di, doc := range docs {
+			for k := 0; k <= len(doc); k++ {
+				for mi, mode := range []string{"text", "batch", "json", "dry", "massive", "massive-json", "walk", "mkdir-dry"} {
+					r := &transientReader{pre: append([]byte{}, doc[:k]...), post: append([]byte{}, doc[k:]...)}
+					var w bytes.Buffer
+					var err error
+					switch mode {
+					case "text":
+						err = gtree.OutputFromMarkdown(&w, r)
+					case "batch":
+						err = gtree.OutputFromMarkdown(&w, r, gtree.WithNoUseIterOfSimpleOutput())
+					case "json":
+						err = gtree.OutputFromMarkdown(&w, r, gtree.WithEncodeJSON())
+					case "dry":
+						err = gtree.OutputFromMarkdown(&w, r, gtree.WithDryRun())
+					case "massive":
+						var lb lockedBuf
+						err = gtree.OutputFromMarkdown(&lb, r, gtree.WithMassive(context.Background()))
+					case "massive-json":
+						var lb lockedBuf
+						err = gtree.OutputFromMarkdown(&lb, r, gtree.WithMassive(context.Background()), gtree.WithEncodeJSON())
+					case "walk":
+						err = gtree.WalkFromMarkdown(r, func(*gtree.WalkerNode) error { return nil })
+					case "mkdir-dry":
+						colorOutMu.Lock()
+						err = gtree.MkdirFromMarkdown(r, gtree.WithDryRun(), gtree.WithTargetDir(os.TempDir()))
+						colorOutMu.Unlock()
+					}
+					var diffs []Diff
+					if !errors.Is(err, errReader) {
+						diffs = append(diffs, Diff{What: "the reader failed once after " + fmtInt(k) + " bytes (" + mode + ") but the call did not return its error", Real: classify(err), Model: "reader"})
+					}
+					rep.Record(map[string]any{"kind": "transient-reader", "doc": string(doc), "after": k, "mode": mode}, "transient:"+fmtInt(di)+"/"+fmtInt(k)+"/"+fmtInt(mi), k > 0, diffs)
+					rep.Count("transient-reader:" + mode)
+				}
+			}
+		}
+	}
 	// the command line is a caller like any other: a standard output that refuses every byte (/dev/full) must
 	// not be reported as success, however little was to be written
 	if _, err := os.Stat("/dev/full"); err == nil {
